@@ -149,3 +149,26 @@ class LinkedTables(Contract):
         # every data column enters exactly once
         total = sum(len(d) for d in out["data"])
         yield "every_data_column_enters_exactly_once", total == sum(len(ds.model_axis) * len(ds.global_axis) for ds in cfg.datasets)
+
+
+# ----------------------------------------------------------------------------- linked results under their labels and coordinates
+from contracts.c03_results import ResultData as _ResultData  # noqa: E402
+
+
+class LinkedResultsByLabel(_ResultData):
+    """Points of different datasets share clps iff they are assigned to the same aligned point, and every column is reported
+    back under its original coordinate *and label*: the clps a linked dataset reports under a label are the coefficients of
+    the column of that label in the stacked problem of its aligned index (the order of the merged label list is the order
+    of the stacked columns).  Harness and reference of C03 `ResultData`, restricted to the linked configurations."""
+
+    prop = "C09"
+    name = "LinkedResultsByLabel"
+
+    def cases(self, tier):
+        for case in super().cases(tier):
+            cfg = case["_cfg"]
+            if cfg.name != "labels_concatenations_coincide" and any(link for link, _ in cfg.groups.values()) and len(cfg.datasets) > 1:
+                yield case
+
+    def bounded_checks(self, tier, seed):
+        return []
